@@ -15,3 +15,4 @@ import BnpVerif.Props.C10
 #print axioms C10.location_inside
 #print axioms C10.geometry_sort_genome_order
 #print axioms C10.name_lookup_partial
+#print axioms C10.merge_checked
